@@ -15,7 +15,7 @@
   Part 2 `Sys/IpcDispatch` mirrors
     NetworkClient.__call__              -> `mkRequest`, `clientPost`
     KGRemoteFnProxy.__call__            -> `proxyRequest`
-    NetworkClientDictHandle.get / set   -> `dictGetRequest`, `dictSetRequest`, `clientPost`
+    NetworkClientDictHandle.get / set   -> `Cmd.dictGet`, `Cmd.dictSet`, `clientPost`
     execute_server_command              -> `dispatch`, `wrapResp`
     pickle of the command / the answer  -> `tau singleton` (the only thing modelled about pickle:
                                            what it does to the `:undefined` marker, klongpy/types.py
@@ -282,6 +282,52 @@ def localCall {σ : Type} (I : Interp σ) (st : σ) (name : String) (args : List
   | some r => if r.isFn then I.call st r args else Option.none
   | Option.none => Option.none
 
+/-! ### operation sequences -/
+
+/-- the remote operation forms of the property -/
+inductive Op
+  | text (e : String)                                  -- `f("e")`
+  | sym (name : String)                                -- `f(:name)`
+  | call (name : String) (args : List Val)             -- `f(:name,args)`
+  | proxy (name : String) (arity : Nat) (args : List Val)   -- `q(args)`, `q` a proxy for `name`
+  | get (k : String)                                   -- `d?:k`
+  | set (k : String) (v : Val)                         -- `d,:k,,v`
+deriving Repr
+
+/-- the operation performed through the connection (result of a set: the handle, shown as `none`) -/
+def remoteStep {σ : Type} (τ : Val → Val) (I : Interp σ) (st : σ) : Op → Option (σ × Val)
+  | .text e => remoteApply τ I st (.str e)
+  | .sym n => remoteApply τ I st (.sym n)
+  | .call n args => remoteApply τ I st (.list (.sym n :: args))
+  | .proxy n a args => remoteProxy τ I st n a args
+  | .get k => remoteGet τ I st k
+  | .set k v => (remoteSet τ I st k v).map (fun s => (s, Val.none))
+
+/-- the same operation evaluated locally on the server interpreter -/
+def localStep {σ : Type} (I : Interp σ) (st : σ) : Op → Option (σ × Val)
+  | .text e => (I.evalText st e).map (fun p => (p.1, present Option.none p.2))
+  | .sym n => (I.evalText st n).map (fun p => (p.1, present (some n) p.2))
+  | .call n args => (localCall I st n args).map (fun p => (p.1, present Option.none p.2))
+  | .proxy n a args => (localCall I st n (args.take a)).map (fun p => (p.1, present Option.none p.2))
+  | .get k => (I.get st k).map (fun r => (st, present (some k) r))
+  | .set k v => some (I.set st k v, Val.none)
+
+def runWith {σ : Type} (step : σ → Op → Option (σ × Val)) : σ → List Op → Option (σ × List Val)
+  | st, [] => some (st, [])
+  | st, op :: ops =>
+    match step st op with
+    | Option.none => Option.none
+    | some (st', r) => (runWith step st' ops).map (fun p => (p.1, r :: p.2))
+
+/-- a result the property speaks about: a function (presented as reference / proxy) or data -/
+def okResult (r : Val) : Bool := r.isFn || r.data
+
+/-- what crosses the wire: data, `None`, function references -/
+def Val.wire : Val → Bool
+  | .none => true
+  | .fnref _ => true
+  | v => v.data
+
 /-! ### a small concrete interpreter (driver and witnesses)
 
   The text of `f("…")` is abstracted to a parsed form: the harness renders each `Expr` as
@@ -309,9 +355,9 @@ def builtinCall (s : Store) (code : Nat) (ps : List Val) : Option (Store × Val)
   match code, ps with
   | 0, [] => some (s, .int 77)                                  -- k0::{77}
   | 1, [x] => some (s, x)                                       -- id1::{x}
-  | 2, [_, y] => some (s, y)                                    -- snd::{y}
-  | 3, [_, _, z] => some (s, z)                                 -- trd::{z}
-  | 4, [x] => some (s, .int (if x.isUndef then 1 else 0))       -- und1::{:_x}
+  | 2, [_, y] => some (s, y)                                    -- snd::{x;y}
+  | 3, [_, _, z] => some (s, z)                                 -- trd::{x;y;z}
+  | 4, [x] => some (s, .int (if x.isUndef then 1 else 0))       -- und1::{x;:_x}
   | 5, [x] => some (s, x)                                       -- pyid = lambda x: x
   | 6, [_, y] => some (s, y)                                    -- pysnd = lambda x, y: y
   | 7, [x] =>                                                   -- bump::{cnt::cnt+x}
@@ -323,7 +369,7 @@ def builtinCall (s : Store) (code : Nat) (ps : List Val) : Option (Store × Val)
 
 def builtins : Store :=
   [("k0", .fn 0 0), ("id1", .fn 1 1), ("snd", .fn 2 2), ("trd", .fn 3 3), ("und1", .fn 1 4),
-   ("pyid", .fn 1 5), ("pysnd", .fn 2 6), ("bump", .fn 1 7), ("keep", .fn 1 8), ("cnt", .int 0)]
+   ("pyid", .fn 1 5), ("pysnd", .fn 2 6), ("bump", .fn 1 7), ("keep", .fn 1 8), ("cnt", .int 0), ("last", .int 0)]
 
 def miniCall (s : Store) (f : Val) (ps : List Val) : Option (Store × Val) :=
   match f with
@@ -400,7 +446,7 @@ end
 /-- a complete value, nothing left over -/
 def readVal (s : String) : Option Val :=
   let ts := splitOnChar s ','
-  match parseVal (ts.length + 1) ts with
+  match parseVal (2 * ts.length + 2) ts with
   | some (v, []) => some v
   | _ => Option.none
 
@@ -415,6 +461,7 @@ def parseExpr (t : String) : Option Expr :=
     | some (.list args) => some (.call n args)
     | _ => Option.none
   | ["undefq", n] => some (.undefq n)
+  | [n] => some (.var n)               -- a bare name (what `str(KGSym)` sends) reads the variable
   | _ => Option.none
 
 /-- the interpreter the driver runs the dispatch model over -/
@@ -472,32 +519,41 @@ def handle (st : State) (ws : List String) : State × String :=
     match (field fs "id").bind parseHex, (field fs "body").bind parseHex with
     | some i, some b => (st, "frame=" ++ toHex (encode ⟨i, b⟩))
     | _, _ => (st, "bad-op")
+  | "be32" :: rest =>
+    match natField (fields rest) "n" with
+    | some n => (st, "hex=" ++ toHex (be32 n))
+    | Option.none => (st, "bad-op")
+  | "unbe32" :: rest =>
+    match (field (fields rest) "hex").bind parseHex with
+    | some [a, b, c, d] => (st, s!"n={unbe32 [a, b, c, d]}")
+    | _ => (st, "bad-op")
   | "new" :: rest =>
     match field (fields rest) "singleton" with
     | some "1" => ({ store := builtins, singleton := true }, "ok store=" ++ showStore builtins)
     | some "0" => ({ store := builtins, singleton := false }, "ok store=" ++ showStore builtins)
     | _ => (st, "bad-op")
   | "apply" :: rest =>
+    -- f(x): x a string (text), a symbol, or a list headed by a symbol
     match (field (fields rest) "x").bind readVal with
-    | some x =>
-      match mkRequest x with
-      | some _ => reply st (remoteApply (tau st.singleton) Mini st.store x)
-      | Option.none => (st, "unmodelled")
+    | some (.str e) => reply st (remoteStep (tau st.singleton) Mini st.store (.text e))
+    | some (.sym n) => reply st (remoteStep (tau st.singleton) Mini st.store (.sym n))
+    | some (.list (.sym n :: args)) => reply st (remoteStep (tau st.singleton) Mini st.store (.call n args))
+    | some _ => (st, "unmodelled")
     | Option.none => (st, "bad-op")
   | "proxy" :: rest =>
     let fs := fields rest
     match field fs "name", natField fs "arity", (field fs "args").bind readVal with
-    | some n, some a, some (.list args) => reply st (remoteProxy (tau st.singleton) Mini st.store n a args)
+    | some n, some a, some (.list args) =>
+      reply st (remoteStep (tau st.singleton) Mini st.store (.proxy n a args))
     | _, _, _ => (st, "bad-op")
   | "dget" :: rest =>
     match field (fields rest) "name" with
-    | some n => reply st (remoteGet (tau st.singleton) Mini st.store n)
+    | some n => reply st (remoteStep (tau st.singleton) Mini st.store (.get n))
     | Option.none => (st, "bad-op")
   | "dset" :: rest =>
     let fs := fields rest
     match field fs "name", (field fs "val").bind readVal with
-    | some n, some v =>
-      reply st ((remoteSet (tau st.singleton) Mini st.store n v).map (fun s' => (s', Val.none)))
+    | some n, some v => reply st (remoteStep (tau st.singleton) Mini st.store (.set n v))
     | _, _ => (st, "bad-op")
   | _ => (st, "bad-op")
 
